@@ -7,6 +7,7 @@ import Driver.Wrap
 import Driver.Jwt
 import Driver.Mldsa
 import Driver.Sig
+import Driver.Hybrid
 /-!
   `tvdrv`: one line in, one line out. The first token selects the model.
   Unknown or malformed lines answer `bad-op` (never a default).
@@ -52,6 +53,10 @@ def dispatch (st : DState) (line : String) : DState × String :=
     | none => (st, "bad-op")
   | "G" :: rest =>
     match Driver.Sg.handle rest with
+    | some out => (st, out)
+    | none => (st, "bad-op")
+  | "H" :: rest =>
+    match Driver.Hy.handle rest with
     | some out => (st, out)
     | none => (st, "bad-op")
   | "K" :: rest =>
